@@ -257,11 +257,21 @@ def aux_stage(ctx):
             sub = rng.sample(rids, rng.randint(1, min(4, len(rids))))
             return auxcorr.pairs_deletions(m, sub, method)
         return f
-    mism = auxcorr.stage(ctx, [("single_reaction_deletion(fba)", f_del("fba")), ("single_reaction_deletion(linear moma)", f_del("linear moma"))],
-                         gen, ctx.scale(40, 500))
+    def f_gene(make, spec, rng):
+        m = make()
+        gids = [g.id for g in m.genes]
+        if not gids:
+            return []
+        return auxcorr.pairs_gene_deletions(m, rng.sample(gids, rng.randint(1, min(3, len(gids)))))
+    mism = auxcorr.stage(ctx, [("single_reaction_deletion(fba)", f_del("fba")), ("single_reaction_deletion(linear moma)", f_del("linear moma")),
+                               ("single_gene_deletion(fba)", f_gene)], gen, ctx.scale(40, 500))
     cases = []
     for mm in mism[:6]:
         rids = [r["id"] for r in mm["spec"]["rxns"]]
+        if "gene" in mm["label"]:
+            genes = sorted({g for r in mm["spec"]["rxns"] for g in (set(GENES) & set(r["rule"].replace("(", " ").replace(")", " ").split()))})
+            cases.append({"spec": mm["spec"], "kind": "single_gene", "method": "fba", "as_objects": False, "ref_order": "model", "l1": None, "_pool": genes})
+            continue
         cases.append({"spec": mm["spec"], "kind": "single_rxn", "method": "linear moma" if "moma" in mm["label"] else "fba", "as_objects": False,
                       "ref_order": "model", "l1": None, "_pool": rids})
     return cases
